@@ -249,7 +249,6 @@ func Execute(w *World, tape *simrt.Tape, gold []*Golden, onFatal func(int, strin
 	res.Stats = simrt.GetStats()
 	res.Verdict = simrt.Verdict()
 	res.EventHash = res.Stats.EventHash
-	res.Tape = tape.Snapshot()
 	var oh uint64
 	for t := range x.ts {
 		res.Violations = append(res.Violations, x.ts[t].viol...)
